@@ -204,11 +204,9 @@ pub fn pair(t: &mut Tape, n: usize) -> (Limbs, Limbs) {
         4 => rel_sum(t, n),
         _ => rel_diff(t, n),
     };
-    if t.bool() {
-        (b, a)
-    } else {
-        (a, b)
-    }
+    let (mut a, mut b) = if t.bool() { (b, a) } else { (a, b) };
+    gen::dict_salt(t, &mut a, &mut b);
+    (a, b)
 }
 
 /// Pair with different limb counts (l, r): built at the wider width and truncated, so the low limbs
